@@ -168,6 +168,12 @@ def infinite_costs_part(ctx, count):
 
 
 def run(ctx: C.Ctx):
+    from .. import shapes_static, translate_householder
+    shapes_static.run_with_translation(ctx, translate_householder, "Householder", "Householder-loop", lambda: _run(ctx),
+                                       "regenerated from CCQR.fit / qr_reflector / GQR.fit: pivot rule, reflector steps (denoting `reflector`), order of the array operations")
+
+
+def _run(ctx: C.Ctx):
     infinite_costs_part(ctx, ctx.scale(40, 500))
     rng = ctx.rng
     todo = []
